@@ -161,10 +161,10 @@ def stmt_removal_assert(entry: int, ctx: int, above: int, trail: int, eol: int, 
 def stmt_removal_layouts(entry: int, ctx: int, above: int, trail: int, eol: int, tabs: int) -> bool:
     """Same family: remove-future-imports with the removed name first / last in a two-name import, fix-assert-tuple on
     a tuple whose elements span several lines, fix-empty-sequence-comparison on a parenthesised comparison inside an
-    arithmetic expression.
+    arithmetic expression, use-walrus-if with an unparenthesised tuple / a yield on the right-hand side.
     post: _
     """
-    return fin(_stmt(10, 5, entry, ctx, above, trail, eol, tabs))
+    return fin(_stmt(10, 7, entry, ctx, above, trail, eol, tabs))
 
 
 def _sast_compiles(names, which: int, style: int, args: int, decoy: int, layout: int) -> bool:
@@ -239,7 +239,7 @@ SPEC = {
         "detector-driven hardening family: the complete real transformer chains of 16 semgrep-detected codemods with one result placed on the call (output must compile)",
     ],
     "bounds": {
-        "quick": "literal content <= 2 characters over {a, double quote, single quote, backslash, newline, %, {, space}; 4 quote styles x 5 prefixes; one or two literal pieces; E2 quick grammar; statement family: 15 triggers x <= 8 block contexts x 4 leading-trivia shapes x trailing comment x LF/CRLF x spaces/tabs; detector-driven family: 16 codemods x 4 import styles x 3-4 argument lists x 3 surroundings x 3 layouts",
+        "quick": "literal content <= 2 characters over {a, double quote, single quote, backslash, newline, %, {, space}; 4 quote styles x 5 prefixes; one or two literal pieces; E2 quick grammar; statement family: 17 triggers x <= 8 block contexts x 4 leading-trivia shapes x trailing comment x LF/CRLF x spaces/tabs; detector-driven family: 16 codemods x 4 import styles x 3-4 argument lists x 3 surroundings x 3 layouts",
         "thorough": "content <= 3 characters; E2 thorough grammar",
     },
     "assumptions": [
